@@ -119,6 +119,7 @@ def draw_case(case, ch: Choices):
             s["fault"] = None
             if cfg["faulty"] and ch.chance("cfg.fault", 1, 4):
                 s["fault"] = ch.pick("cfg.faultkind", ["connect_error", "read_timeout", "remote_protocol_error", "write_error"])
+    cfg["shared_headers"] = ch.chance("cfg.shared_headers", 1, 4)
     cfg["lat_profile"] = ch.draw("cfg.latp", 3)
     cfg["preempt_den"] = ch.pick("cfg.pden", [1, 1, 3, 9])
     return cfg
@@ -131,7 +132,7 @@ def sched_knobs(cfg):
     prof = LAT[cfg["lat_profile"]]
     return {"lat": lambda ch, label: prof[ch.draw("net." + label, len(prof))],
             "start": lambda ch, ci: [0.0, 0.0, 0.5, 5.0][ch.draw("sched.start", 4)],
-            "preempt_den": cfg["preempt_den"], "budget": 7200.0}
+            "preempt_den": cfg["preempt_den"], "budget": 7200.0, "shared_headers": cfg.get("shared_headers", False)}
 
 
 def _nonce_faults(callers):
@@ -176,6 +177,8 @@ def check_request(rec: hw.CallRec, cap, own_transport, V):
         V("request-url", "%s: url %s" % (tag, can["url"]))
     # headers
     call_headers = dict(rec.spec["kw"].get("headers") or {})
+    if getattr(rec, "headers_before", None) is not None:
+        call_headers = {"X-Sim-Caller": "c%d" % rec.caller, "X-Shared": "s"}     # what the caller's shared dict holds
     hdr = {}
     for k, v in cap.headers:
         hdr.setdefault(k, []).append(v)
@@ -401,6 +404,11 @@ def run_case(case, ch: Choices) -> RunResult:
     res.bump("runs.faulty" if cfg["faulty"] else "runs.fault_free")
     res.bump("variant." + cfg["variant"])
     res.bump("client_builds_own_transport" if cfg["own_transport"] else "explicit_http_client")
+    if cfg.get("shared_headers"):
+        res.bump("runs.caller_shares_one_headers_dict")
+        for ci, after in (info.get("shared_headers_after") or {}).items():
+            if after != {"X-Sim-Caller": "c%d" % ci, "X-Shared": "s"}:
+                res.observations.append("caller-headers-dict-mutated")
     res.bump("probe.overlapping_calls", overlapping)
     for k, v in server.stats.items():
         res.bump(k, v)
